@@ -189,13 +189,13 @@ func decodeTwoRegistersAndTwoImmediates(instructionCode []byte, pc ProgramCounte
 	lY := min(4, max(0, skipLength-lX-2))
 
 	vXData := instructionCode[pc+3 : pc+3+lX]
-	vX, _, err := ReadUintFixed(vXData, len(vXData))
+	vX, _, err := ReadUintSignExtended(vXData, len(vXData))
 	if err != nil {
 		return 0, 0, 0, 0, err
 	}
 
 	vYData := instructionCode[pc+3+lX : pc+3+lX+lY]
-	vY, _, err := ReadUintFixed(vYData, len(vYData))
+	vY, _, err := ReadUintSignExtended(vYData, len(vYData))
 	if err != nil {
 		return 0, 0, 0, 0, err
 	}
